@@ -51,12 +51,70 @@ def perfect (k : Kind) (amount : Nat) (es : List (Entry H)) : Bool :=
   es.all (fun e => decide (e.status = 1) && e.validated.isSome) &&
   acceptable height hash k amount es (validatedOf es) && decide (es.length ≤ amount)
 
-/-- the property: accepted ⇒ acceptable; never a panic; and (so that "accepts only" is not
-    satisfied by refusing everything) a perfect response is accepted exactly as sent -/
-def specOK (k : Kind) (amount : Nat) (es : List (Entry H)) : Obs H → Bool
+/-- VALUE-level reading (weaker than the property; kept because other results build on it):
+    accepted ⇒ the accepted list is acceptable; never a panic; a perfect response is accepted
+    exactly as sent -/
+def specValue (k : Kind) (amount : Nat) (es : List (Entry H)) : Obs H → Bool
   | .accepted hs =>
     acceptable height hash k amount es hs && (!perfect height hash k amount es || hs == validatedOf es)
   | .error => !perfect height hash k amount es
   | .panic => false
+
+/-! ### the property at RESPONSE level ("anything else is an error")
+
+  The response — the whole list of entries the peer sent — must itself be what the property
+  names: 1..amount entries, EVERY entry OK and individually validated, and the headers (in any
+  order on the wire: the property does not speak about wire order, the accepted run is ascending)
+  are, for a height request, exactly the heights start, start+1, …; for a hash request a single
+  header with that hash; for a head request a single header.  Exactly such responses are
+  accepted, as the ascending list of their headers; every other response is an error. -/
+
+/-- entry is OK and its body validated -/
+def good (e : Entry H) : Bool := decide (e.status = 1) && e.validated.isSome
+
+def insertH (h : H) : List H → List H
+  | [] => [h]
+  | x :: xs => if height h ≤ height x then h :: x :: xs else x :: insertH h xs
+
+/-- ascending by height (insertion sort) -/
+def sortH : List H → List H
+  | [] => []
+  | x :: xs => insertH height x (sortH xs)
+
+/-- the response as a whole is a well-formed answer to the request -/
+def wellFormed (k : Kind) (amount : Nat) (es : List (Entry H)) : Bool :=
+  es.all good && decide (es.length ≤ amount) &&
+  acceptable height hash k amount es (sortH height (validatedOf es))
+
+/-- the property, strictly: accepted ⇔ the response is well formed, and then the accepted value
+    is its headers in ascending order; never a panic -/
+def specStrict (k : Kind) (amount : Nat) (es : List (Entry H)) : Obs H → Bool
+  | .accepted hs => wellFormed height hash k amount es && (hs == sortH height (validatedOf es))
+  | .error => !wellFormed height hash k amount es
+  | .panic => false
+
+/-- the ONE known class of responses on which lumina deliberately departs from the strict
+    reading: the response has at most `amount` entries, is NOT well formed because some entry after
+    the first good ones is bad (wrong status / fails validation) — and the client accepts the
+    maximal good prefix, which on its own is a well-formed response, instead of an error -/
+def validatedPrefixClass (k : Kind) (amount : Nat) (es : List (Entry H)) : Obs H → Bool
+  | .accepted hs =>
+    !wellFormed height hash k amount es && decide (es.length ≤ amount) &&
+    specStrict height hash k amount (es.takeWhile good) (.accepted hs)
+  | _ => false
+
+/-- which requests the client may send at all (`is_valid`) and which of them are head requests:
+    data present, at least one header asked for, exactly one for a head (origin 0) or hash
+    request, and a hash of exactly 32 bytes -/
+def specValid (k : Kind) (hashLen amount : Nat) (valid head : Bool) : Bool :=
+  (valid == (decide (1 ≤ amount) &&
+    match k with
+    | .none => false
+    | .height _ => true
+    | .head => decide (amount = 1)
+    | .hash _ => decide (hashLen = 32) && decide (amount = 1))) &&
+  (head == (match k with
+    | .head => decide (amount = 1)
+    | _ => false))
 
 end Lumina.Spec.C28
